@@ -663,6 +663,23 @@ def _tight(p):
     return p
 
 
+def _num_sums_form(ns):
+    """the requested sizes as list / tuple / integer array / one-shot iterator (all iterated once by the unchanged library)."""
+    from harness import reps
+
+    ns = [int(v) for v in ns]
+    h = reps.pick(("num_sums", ns), 5) if reps._on() else 0
+    if h == 1:
+        return tuple(ns)
+    if h == 2:
+        return np.array(ns, dtype=np.int64)
+    if h == 3:
+        return iter(ns)
+    if h == 4:
+        return (v for v in ns)
+    return ns
+
+
 def _num_sums_st(min_size=0):
     # the multi-schedule wrappers transpose the list of sample sizes; an empty list is outside what they accept
     return st.lists(_N_MULT, min_size=min_size, max_size=3)
@@ -792,7 +809,7 @@ def _run_entry(e, c, setup, stream_arg, dataset_streams=None):
     if e == "dataset":
         return dg.generate_dataset_from_prob_dists([p.copy() for p in c["ps"]], list(c["ns"]), dataset_streams)
     if e == "empi_seq":
-        return dg.generate_empi_dist_sequence_from_prob_dist(c["p"].copy(), list(c["num_sums"]), stream_arg)
+        return dg.generate_empi_dist_sequence_from_prob_dist(c["p"].copy(), _num_sums_form(c["num_sums"]), stream_arg)
     if e == "empi_seqs":
         return dg.generate_empi_dists_sequence_from_prob_dists([p.copy() for p in c["ps"]],
                                                                [list(x) for x in c["list_num_sums"]], stream_arg)
@@ -815,7 +832,7 @@ def _run_entry(e, c, setup, stream_arg, dataset_streams=None):
     if e == "exp_dataset":
         return ex.generate_dataset(list(c["ns"]), stream_arg)
     if e == "exp_empi_seq":
-        return ex.generate_empi_dist_sequence(c["idx"], list(c["num_sums"]), stream_arg)
+        return ex.generate_empi_dist_sequence(c["idx"], _num_sums_form(c["num_sums"]), stream_arg)
     if e == "exp_empi_seqs":
         return ex.generate_empi_dists_sequence([list(x) for x in c["list_num_sums"]], stream_arg)
     if e == "tomo_dist":
